@@ -143,12 +143,17 @@ Num txs: {"unknown" if self.txs is None else len(self.txs)}
 
     def check_pow(self):
         """Returns whether this block satisfies proof of work"""
+        # consensus never accepts a target that is negative (sign bit of the
+        #  coefficient in the bits), zero or too large for 256 bits
+        target = self.target()
+        if self.bits[2] & 0x80 or target == 0 or target >= 1 << 256:
+            return False
         # get the hash256 of the serialization of this block
         h256 = hash256(self.serialize())
         # interpret this hash as a little-endian number
         proof = little_endian_to_int(h256)
         # return whether this integer is less than the target
-        return proof <= self.target()
+        return proof <= target
 
     def validate_merkle_root(self):
         """Gets the merkle root of the tx_hashes and checks that it's
